@@ -20,21 +20,27 @@ fn tier_of(s: &str) -> Tier {
 }
 
 fn weight(it: &Item) -> u64 {
-    // rough relative cost, used only to balance work between processes
+    // rough relative cost (executions x threads), used only to balance work between processes
     let w = match it.case.nt[0] {
-        hcore::settings::NtSet::Max(n) | hcore::settings::NtSet::N(n) => n.max(1),
+        hcore::settings::NtSet::Max(n) | hcore::settings::NtSet::N(n) => n.clamp(1, 16),
         _ => 4,
     } as u64;
     let n = it.case.input.len().max(1) as u64 + if it.case.endless { 8 } else { 0 };
-    let b = match it.plan.bound {
-        None => 400 * w * w * w,
-        Some(0) => 1,
-        Some(1) => 8 * w,
-        Some(2) => 60 * w * w,
-        Some(_) => 400 * w * w,
+    if it.plan.single {
+        return 1 + w / 4;
+    }
+    let pts = if it.case.cpoints || it.case.spoints { 3 } else { 1 };
+    let steps = n * pts + 4 * w;
+    let execs = match (it.plan.order, it.plan.bound) {
+        (_, None) => (steps * steps * w * w).min(400_000),
+        (_, Some(0)) => 1,
+        (sched::Order::Pb, Some(1)) => steps * w,
+        (sched::Order::Pb, Some(_)) => steps * steps * w * w / 2,
+        (sched::Order::Db, Some(1)) => steps,
+        (sched::Order::Db, Some(_)) => steps * steps / 2,
     };
-    let pts = if it.case.cpoints || it.case.spoints { 4 } else { 1 };
-    1 + b * n * pts / 4
+    let execs = if it.plan.max_execs > 0 { execs.min(it.plan.max_execs) } else { execs };
+    1 + execs * (1 + w / 3)
 }
 
 fn main() {
